@@ -314,6 +314,10 @@ class SetGrid(Contract):
                 continue
             c, w, l = [v.to_symbolic() for v in vals]
             rng = z3.And(i >= 0, i < kept)
+            cwb = f.get("coordinate_array_with_boundary")
+            cwb_ok = isinstance(cwb, Seq) and cwb.concrete and len(cwb.items) == self.ndim and isinstance(cwb.items[d], Seq)
+            out.append(Cl("all-handed-in-points-kept-as-the-coordinates-with-boundary[dim %d]" % d,
+                          z3.And(V(cwb.items[d].to_symbolic().len()) == n0, z3.ForAll([i], z3.Implies(z3.And(i >= 0, i < n0), z3.Select(cwb.items[d].to_symbolic().arr, i) == z3.Select(p0.arr, i)))) if cwb_ok else False))
             out += [Cl("weights-are-computed-for-exactly-the-handed-in-points[dim %d]" % d, z3.And(V(g_in.len()) == n0, z3.ForAll([i], z3.Implies(z3.And(i >= 0, i < n0), z3.Select(g_in.to_symbolic().arr, i) == z3.Select(p0.arr, i)))), prop=True),
                     Cl("as-many-points-weights-and-levels-as-reported[dim %d]" % d, z3.And(V(c.len()) == kept, V(w.len()) == kept, V(l.len()) == kept, V(f["numPoints"].items[d]) == kept,
                                                                                               V(f["numPointsWithBoundary"].items[d]) == n0), prop=True),
